@@ -3,7 +3,9 @@
 Theorems: lean/Props/C09.lean about `Model.CellAttr.cellAttr` (column removal → page rows → page-relative
 iloc) = the attribute at the cell's ORIGINAL (row, column) position, independent of the page partition.
 Oracle on the implementation (independent of the model): every tagged data cell of the real output is compared,
-attribute by attribute, with `A[r % R][c % C]` of the body attributes at the cell's original position; plus the
+attribute by attribute, with `A[r % R][c % C]` of the body attributes at the cell's original position (whatever the
+SPELLING of the attribute value: Python scalar / list / tuple / nested list, numpy scalar / 0-d / 1-D / 2-D array,
+polars Series / DataFrame — `docgen.plain` gives the scalar / per-column / per-row / matrix reading); plus the
 metamorphic check that the unpaginated rendering of the same table gives identical per-cell formats (apart from
 page-boundary borders).  Correspondence: for sampled attributes the Lean model's per-page grids predict exactly
 the observed values.
@@ -19,16 +21,23 @@ MANIFEST = dict(
          "iloc) for every rectangular attribute matrix, table size, removed-column set and page cut: the value used "
          "for a rendered cell is the attribute at the cell's original (row, column) position, whatever the page "
          "partition. Tied to the code by observation of every body attribute in scalar / per-column / matrix shape "
-         "on paginated tables with removed columns, and by a paginated-vs-unpaginated metamorphic check.",
+         "on paginated tables with removed columns — each shape in every spelling the constructor accepts (Python "
+         "scalar / list / tuple / nested list, numpy scalar / 0-d / 1-D / 2-D array, polars Series / DataFrame) — and by "
+         "a paginated-vs-unpaginated metamorphic check.",
     note="How an attribute value is spelled in RTF (control words) is checked on the observation with the code's own "
-         "code tables (translated data); page-boundary top/bottom borders belong to C07 and are excluded here.",
+         "code tables (translated data); page-boundary top/bottom borders belong to C07 and are excluded here. "
+         "1-D array-likes (numpy 1-D / 0-d arrays, polars Series) are accepted for the text_* attributes only "
+         "(border_* / cell_* are typed list[list[..]] and refuse them at construction): those spellings are drawn "
+         "where they are accepted; pandas is not installed here, its Series takes the same path as a numpy 1-D array.",
     technique="Lean 4 proof (broadcast/slice algebra) + observation-level oracle and metamorphic check",
     design="7/C09",
 )
 
 RULE = ("every body attribute × shapes {scalar, 1×ncol, nrow×ncol} with random legal values × tables of 1..40 rows × "
-        "nrow from one page to many × 0..k removed columns at any position × the three strategies; non-trivial = ≥ 2 "
-        "pages and at least one matrix-shaped attribute; distinct by (strategy, nrow, shapes, page sizes)")
+        "nrow from one page to many × 0..k removed columns at any position × the three strategies; a second stream "
+        "draws every shape in every spelling RTFBody accepts for the attribute (Python scalar / [v] / [[v]] / list / "
+        "tuple / nested list, numpy scalar, numpy 0-d / 1-D / 2-D array, polars Series / DataFrame); non-trivial = ≥ 2 "
+        "pages and at least one matrix-shaped attribute; distinct by (strategy, nrow, shapes, spellings, page sizes)")
 
 # the pool mixes names whose alphabetical order differs from their order in the colour table ("white" is entry 1 of
 # the table and last by name; gray2 < gray10 < gray100 by index, gray10 < gray100 < gray2 by name), so that an index
@@ -66,11 +75,57 @@ ATTRS = {
 
 def iloc(value, r, c):
     """the binding the property states: scalar / per-column / matrix, broadcast cyclically"""
+    value = docgen.plain(value)       # array-like / tuple spellings bind as the plain list of the same shape does
     if not isinstance(value, list):
         return value
     if value and not isinstance(value[0], list):
         value = [value]
     return value[r % len(value)][c % len(value[0])]
+
+
+# every way RTFBody lets one write a value of a given shape.  The component then holds a nested list, except for
+# the 1-D array-likes (and numpy 0-d arrays / non-str, non-float numpy scalars), which it holds as a FLAT list.
+SPELLINGS = {
+    "scalar": ["py", "list1", "nested1", "npscalar", "nd0", "nd1", "nd2", "series", "frame"],
+    "percol": ["list", "nested", "nd1", "nd2", "series", "frame"],
+    "matrix": ["nested", "nd2", "frame"],
+    "pattern": ["nested", "nd2", "frame"],
+    "perrow": ["nested", "tuple", "nd2", "frame"],
+}
+
+
+def accepted(attr, spelling, sample):
+    """does RTFBody accept this spelling for this attribute?  (text_* fields are typed list[T] | list[list[T]];
+    border_* / cell_* list[list[T]] only: no 1-D array-likes, and numpy scalars only where they are str / float
+    subclasses — established by probing the constructor, see tools/probe_spellings.py)"""
+    if attr.startswith("text_"):
+        return True
+    if spelling in ("nd0", "nd1", "series"):
+        return False
+    if spelling == "npscalar":
+        return isinstance(sample, (str, float))
+    return True
+
+
+def spell(v, shape, spelling):
+    """the JSON form (docgen markers) of logical value `v` (scalar | flat per-column list | nested list) in `spelling`"""
+    if shape == "scalar":
+        return {"py": v, "list1": [v], "nested1": [[v]], "npscalar": {"__npscalar__": v}, "nd0": {"__ndarray__": v},
+                "nd1": {"__ndarray__": [v]}, "nd2": {"__ndarray__": [[v]]}, "series": {"__series__": [v]},
+                "frame": {"__frame__": [[v]]}}[spelling]
+    if shape == "percol":
+        return {"list": v, "nested": [v], "nd1": {"__ndarray__": v}, "nd2": {"__ndarray__": [v]},
+                "series": {"__series__": v}, "frame": {"__frame__": [v]}}[spelling]
+    if spelling == "tuple":
+        return {"__tuple__": [row[0] for row in v]}
+    return {"nested": v, "nd2": {"__ndarray__": v}, "frame": {"__frame__": v}}[spelling]
+
+
+def held_flat(attr, shape, spelling, sample):
+    """the component holds this value as a flat list (BroadcastValue reads it as one row on every use)"""
+    if spelling in ("nd0", "nd1", "series"):
+        return True
+    return spelling == "npscalar" and not isinstance(sample, (str, float))
 
 
 def permute_columns(rng, spec, info):
@@ -89,10 +144,14 @@ def permute_columns(rng, spec, info):
 class C09(layfamily.Family):
     prop, tag = "C09", "c09"
 
+    BASE = {"quick": 260, "thorough": 3500}          # plain Python spellings (the stream as it always was)
+    SPELLED = {"quick": 200, "thorough": 2500}       # the same shapes in every spelling the constructor accepts
+
     def ndocs(self, tier):
-        return 260 if tier == "quick" else 3500
+        return self.BASE.get(tier, 3500) + self.SPELLED.get(tier, 2500)
 
     def gen(self, rng, k, tier):
+        spelled = k >= self.BASE.get(tier, 3500)
         n = rng.randint(1, 40)
         nrow = rng.choice([rng.randint(4, 12), rng.randint(4, 12), 60])
         spec, info = laygen.gen_spec(rng, n=n, nrow=nrow, long_rows=False, dividers=False,
@@ -100,7 +159,9 @@ class C09(layfamily.Family):
         if rng.random() < 0.7:
             permute_columns(rng, spec, info)
         ncols = len(spec["df"]["cols"])
-        chosen = rng.sample(sorted(ATTRS), rng.randint(2, 7))
+        # the spelled stream also draws documents with one to three attributes (a value the implementation binds to
+        # the wrong cell is then not masked by another attribute on which the same document is refused)
+        chosen = rng.sample(sorted(ATTRS), rng.randint(1, 3) if spelled and rng.random() < 0.5 else rng.randint(2, 7))
         shapes = {}
         for a in chosen:
             g = ATTRS[a]
@@ -124,6 +185,19 @@ class C09(layfamily.Family):
             shapes[a] = sh
         info["attrs"] = chosen
         info["shapes"] = shapes
+        if spelled:
+            spellings, labels = {}, []
+            for a in chosen:
+                v, sh = spec["body"][a], shapes[a]
+                sample = v if sh == "scalar" else v[0] if sh == "percol" else v[0][0]
+                sp = rng.choice([x for x in SPELLINGS[sh] if accepted(a, x, sample)])
+                spec["body"][a] = spell(v, sh, sp)
+                spellings[a] = sp
+                labels.append(f"spelling:{sh}:{sp}")
+                if held_flat(a, sh, sp, sample):
+                    labels.append("held:flat-list" + (":no-removal" if not info["removed"] else ":removal"))
+            info["spellings"] = spellings
+            info["labels"] = labels
         return spec, info
 
     # ---- observation of one cell
@@ -226,8 +300,10 @@ class C09(layfamily.Family):
         for (r, j), items in sorted(table.items()):
             for a, exp, obs in items:
                 if exp != obs:
+                    sp = (info.get("spellings") or {}).get(a)
                     fails.append(f"data cell (row {r}, displayed column {j}): {a} should be {exp!r} "
-                                 f"({info['shapes'].get(a)} attribute at the original position) but the output has {obs!r}")
+                                 f"({info['shapes'].get(a)} attribute{f' spelled as {sp}' if sp else ''} at the original "
+                                 f"position) but the output has {obs!r}")
                     if len(fails) >= 3:
                         return fails
         # metamorphic: unpaginated rendering gives the same per-cell formats
@@ -263,7 +339,7 @@ class C09(layfamily.Family):
         for a in info["attrs"][:2]:
             if a in ("cell_height", "cell_justification"):
                 continue
-            v = spec["body"][a]
+            v = docgen.plain(spec["body"][a])
             mat = v if isinstance(v, list) and v and isinstance(v[0], list) else [v] if isinstance(v, list) else [[v]]
             out.append(dict(attr=a, mat=[[json.dumps(x) for x in row] for row in mat], rows=info["n"], cols=len(cols),
                             removed=removed, pages=pages, ndisp=len(disp)))
@@ -284,6 +360,7 @@ class C09(layfamily.Family):
     def nontrivial(self, spec, info, ob):
         if len(ob["pages"]) >= 2 and ("matrix" in info["shapes"].values() or "pattern" in info["shapes"].values()):
             return [info["strategy"], info["nrow"], json.dumps(info["shapes"], sort_keys=True),
+                    json.dumps(info.get("spellings") or {}, sort_keys=True),
                     str([len([b for b in p if b[0] == 'data']) for p in ob["pages"]])]
         return None
 
@@ -317,11 +394,13 @@ def run(res, build):
     # exercised on the page cuts observed in the real output
     fam = FAM
     tier = res.tier
-    jobs = [(fam, res.seed, k, tier, None) for k in range(fam.ndocs(tier))]
+    jobs = [(fam, res.seed, -1 - i, tier, dict(spec=c["spec"], info=c["info"])) for i, c in enumerate(fam.corpus())]
+    jobs += [(fam, res.seed, k, tier, None) for k in range(fam.ndocs(tier))]
     outs = common.pool_map(layfamily._worker, jobs, chunksize=4)
     for o in outs:
         if "machinery" in o:
             raise common.MachineryError("worker failed: " + o["machinery"])
+    failed = []
     for o in outs:
         case = dict(spec=o["spec"], info=o["info"])
         nt = o.get("nt")
@@ -330,10 +409,29 @@ def run(res, build):
         for a, sh in (o["info"].get("shapes") or {}).items():
             res.count(f"shape:{sh}")
             res.count(f"attr:{a}")
+        for lab in o["info"].get("labels") or []:       # spelling:<shape>:<spelling>, held:flat-list:…
+            res.count(lab)
+        res.count("stream:" + ("spelled" if "spellings" in o["info"] else "plain"))
         if o["status"] == "ok":
             res.count(f"pages:{min(len(o['pages']), 9)}")
+        else:
+            res.count("status:" + o["status"])
         for f in (o.get("fails") or [])[:1]:
-            res.fail(case, f)
+            failed.append((o["status"] != "ok", case, f))
+    # a wrong format read off a real output comes before a refusal to render (both are failing inputs)
+    failed.sort(key=lambda t: t[0])
+    for i, (_, case, f) in enumerate(failed):
+        if i == 0:
+            try:
+                small = layfamily.shrink(fam, case)
+                if small is not case:
+                    o2 = layfamily._in_pool((fam, 0, 0, "quick", dict(spec=small["spec"], info=small["info"])))
+                    if o2.get("fails"):
+                        case, f = small, o2["fails"][0]
+                        res.notes.append("first failing document shrunk to %d rows" % (small["info"].get("n") or 0))
+            except Exception as e:  # noqa: BLE001 — shrinking is best effort
+                res.notes.append(f"shrinking failed: {type(e).__name__}: {e}")
+        res.fail(case, f)
     model_grids(res, [o for o in outs if o["status"] == "ok"])
     from .. import crosscorr
 
@@ -343,7 +441,9 @@ def run(res, build):
         explanation="C09_binding / C09_page_independent / C09_shapes / C09_kept_idx hold for every rectangular "
                     "attribute matrix, table size, removed-column set and page cut. The oracle compares every body "
                     "attribute of every tagged data cell with the original-position rule and with the unpaginated "
-                    "rendering.")
+                    "rendering; the second stream gives every attribute value in every spelling the constructor "
+                    "accepts (array-likes included: a 1-D array-like is held as a flat list, `Attr.list` in the "
+                    "encoder model, which `Attr.toNested` reads as ONE ROW — C09enc_held_forms).")
 
 
 def replay(payload):
